@@ -24,8 +24,8 @@ def run(ctx):
     ctx.assumptions += ["official format with run containers is generated only for fewer than 4 containers (no offset header in that case)"]
     for cfg, K, M in RUNS:
         mode, num = ("bfs", None) if thorough else ("simulate", 150)
-        if cfg == "C04_import_2x2" and not thorough:
-            num = 60
+        if "import" in cfg and not thorough:
+            num = 25 if cfg == "C04_import_2x2" else 50   # the import family is the largest (x3 target preparations)
         r = ctx.generate("RoaringCodec", cfg, mode=mode, num=num, depth=2, timeout=900)
         ctx.drive("bind/roaringb", "TestC04", beh=r.behaviours, env={"VERIF_K": K, "VERIF_M": M},
                   label="C04/" + cfg, timeout=3000)
